@@ -35,7 +35,40 @@ type powSummary struct {
 }
 
 func isHeavy(fn *ssa.Function, it *Interp) bool {
-	if !IsInternalPkg(fn) || IsFiatLeaf(fn) {
+	if isHeavyBody(fn, it) {
+		return true
+	}
+	// a one-line wrapper of a heavy function (the chain evaluated by a table interpreter or a helper): a single block
+	// with at most three calls, returning nothing or a pointer, one of whose callees is heavy
+	if !IsInternalPkg(fn) || IsFiatLeaf(fn) || len(fn.Blocks) != 1 {
+		return false
+	}
+	res := fn.Signature.Results()
+	if res.Len() > 1 {
+		return false
+	}
+	if res.Len() == 1 {
+		if _, isP := res.At(0).Type().Underlying().(*types.Pointer); !isP {
+			return false
+		}
+	}
+	ncalls := 0
+	heavyCallee := false
+	for _, in := range fn.Blocks[0].Instrs {
+		c, ok := in.(*ssa.Call)
+		if !ok {
+			continue
+		}
+		ncalls++
+		if cal := c.Call.StaticCallee(); cal != nil && cal != fn && isHeavyBody(cal, it) {
+			heavyCallee = true
+		}
+	}
+	return heavyCallee && ncalls <= 3
+}
+
+func isHeavyBody(fn *ssa.Function, it *Interp) bool {
+	if !IsInternalPkg(fn) || IsFiatLeaf(fn) || fn.Blocks == nil {
 		return false
 	}
 	calls := 0
